@@ -16,9 +16,13 @@
      ret   = (0) None | (1 q) float
      snapshot = (pin min_angle max_angle min_pulse max_pulse angle pulse)   pin a pynum
      events   = ((0 angle pulse) ...)                     one per completed write/write_us
+
+   CASE    (1 mina maxa minp maxp)    the two bound checks of Servo.__init__ on floats that may be IEEE
+                                      specials; xfloat = (0 (num den)) finite | (1) NaN | (2) +inf | (3) -inf
+   OUTPUT  (0) a ValueError is raised | (1) the bounds are accepted
    An undecodable case answers (2). *)
 From Coq Require Import ZArith QArith List Bool.
-From RV Require Import Base.Wire Base.NumM Host.Servo.
+From RV Require Import Base.Wire Base.NumM Base.XFloat Host.Servo Host.ActuatorsX.
 Import ListNotations.
 Open Scope Z_scope.
 
@@ -84,5 +88,10 @@ Definition run_servo (args : wv) (ops : list wv) : wv :=
 Definition run (v : wv) : wv :=
   match v with
   | WL [WI 0; args; WL ops] => run_servo args ops
+  | WL [WI 1; a; b; c; d] =>
+      match un_xfloat a, un_xfloat b, un_xfloat c, un_xfloat d with
+      | Some a', Some b', Some c', Some d' => WL [wbool (servo_bounds_accepted a' b' c' d')]
+      | _, _, _, _ => wbad
+      end
   | _ => wbad
   end.
